@@ -324,6 +324,37 @@ class FaultStream:
         return out
 
 
+import socket as _socket
+
+
+class ScriptSocket(_socket.socket):
+    """concrete twin of shims.SymSocket: replays a recv script, then delivers what is left / signals close"""
+
+    def __init__(self, data, script=None):
+        super().__init__()
+        self.d = bytes(data)
+        self.pos = 0
+        self.script = list(script or [])
+        self.i = 0
+
+    def recv(self, n, flags=0):
+        if self.i < len(self.script):
+            ent = self.script[self.i]
+            self.i += 1
+            if ent[0] == 't':
+                raise TimeoutError("scripted")
+            if ent[0] == 'o':
+                raise OSError("scripted")
+            if ent[0] == 'c':
+                return b""
+            k = min(ent[1], n, len(self.d) - self.pos)
+        else:
+            k = min(n, len(self.d) - self.pos)
+        out = self.d[self.pos:self.pos + k]
+        self.pos += k
+        return out
+
+
 def frame_ok(raw):
     """well-formed RTCM3 frame with correct CRC-24Q (independent reference)"""
     return (len(raw) >= 6 and raw[0] == 0xD3 and raw[1] & 0xFC == 0 and ((raw[1] & 3) << 8 | raw[2]) == len(raw) - 6
@@ -363,10 +394,20 @@ def replay_stream(case):
     data = bytes.fromhex(case['data'])
     mode = case.get('mode', 1)
     checks = set(case.get('checks', ['c01', 'c04']))
-    st = FaultStream(data, case.get('faults'))
     budget = 3 * len(data) + 8
-    events, end, hc = drive_reader(st, mode, validate=case.get('validate', 1), parsed=case.get('parsed', True),
-                                   labelmsm=case.get('labelmsm', 1), handler=case.get('handler', True), max_calls=budget)
+    if case.get('kind') == 'socket':
+        st = ScriptSocket(data, case.get('recv_log') or [['d', k] for k in case.get('recv', [])])
+        checks.discard('c01')
+        try:
+            events, end, hc = drive_reader(st, mode, validate=case.get('validate', 1), parsed=case.get('parsed', True),
+                                           labelmsm=case.get('labelmsm', 1), handler=case.get('handler', True), max_calls=budget,
+                                           bufsize=case.get('bufsize', 4096), encoding=case.get('encoding', 0))
+        finally:
+            st.close()
+    else:
+        st = FaultStream(data, case.get('faults'))
+        events, end, hc = drive_reader(st, mode, validate=case.get('validate', 1), parsed=case.get('parsed', True),
+                                       labelmsm=case.get('labelmsm', 1), handler=case.get('handler', True), max_calls=budget)
     failed = []
     pairs = [e for e in events if e[0] == 'pair']
     if 'c04' in checks:
@@ -453,7 +494,7 @@ def replay_parse(case):
     return {"reproduced": bool(failed), "failed": failed, "detail": "; ".join(failed)[:600] or "ok"}
 
 
-REPLAYERS = {'construct': replay_construct, 'stream': replay_stream, 'parse': replay_parse}
+REPLAYERS = {'construct': replay_construct, 'stream': replay_stream, 'socket': replay_stream, 'parse': replay_parse}
 
 
 def replay(case):
